@@ -101,6 +101,32 @@ def trans_check(case):
         for csel in (0, -1, slice(0, 2), [nc - 1, 0]):
             if not np.array_equal(srb[:, csel], src[:, csel]):
                 seen.setdefault("transparent:channels", "ns=%d nc=%d: sr[:, %r] differs between compressed and original" % (ns, nc, csel))
+        # single samples: the index as a builtin or a numpy integer (indices computed with numpy are numpy integers) x channel selectors that keep one channel as an axis
+        for i in sorted({0, ns - 1, -1, min(CHUNK, ns - 1), -ns}):
+            for isel in (i, np.int64(i), np.int32(i)) + ((np.uint8(i),) if 0 <= i < 256 else ()):
+                for csel in (slice(None), slice(0, 1), [nc - 1], np.array([0]), 0, slice(0, 0)):
+                    res = []
+                    for sr in (srb, src):
+                        try:
+                            r = sr[isel, csel]
+                            res.append((np.shape(r), np.asarray(r, dtype=np.float64).tobytes()))
+                        except Exception as e:
+                            res.append(("exc", type(e).__name__))
+                    ntr += 1
+                    if res[0] != res[1]:
+                        kind = "transparent:single-sample" + (":numpy-integer" if isinstance(isel, np.integer) else "")
+                        seen.setdefault(kind, "ns=%d nc=%d: sr[%s(%d), %r] gives %r on the compressed recording and %r on its original"
+                                        % (ns, nc, type(isel).__name__, i, csel, res[1][0] if res[1][0] != "exc" else res[1], res[0][0] if res[0][0] != "exc" else res[0]))
+                res = []
+                for sr in (srb, src):
+                    try:
+                        d_, s_ = sr.read(nsel=isel)
+                        res.append((np.shape(d_), np.asarray(d_, dtype=np.float64).tobytes(), np.shape(s_), np.asarray(s_).tobytes()))
+                    except Exception as e:
+                        res.append(("exc", type(e).__name__))
+                if res[0] != res[1]:
+                    kind = "transparent:single-sample:read" + (":numpy-integer" if isinstance(isel, np.integer) else "")
+                    seen.setdefault(kind, "ns=%d nc=%d: sr.read(nsel=%s(%d)) gives %r on the compressed recording and %r on its original" % (ns, nc, type(isel).__name__, i, res[1][:1] + res[1][2:3] if res[1][0] != "exc" else res[1], res[0][:1] + res[0][2:3] if res[0][0] != "exc" else res[0]))
         if not np.array_equal(srb.read_sync(slice(0, ns)), src.read_sync(slice(0, ns))):
             seen.setdefault("transparent:sync", "read_sync differs between compressed and original")
     finally:
